@@ -209,6 +209,56 @@ def _ifexp_pass(fn) -> bool:
     return changed
 
 
+def _allany_pass(fn) -> bool:
+    """`return all(E for v in IT)` is `for v in IT: if not E: return False` + `return True` (any: dual)."""
+    changed = False
+    for owner, field, lst in list(_stmt_lists(fn)):
+        new = []
+        for st in lst:
+            v = st.value if isinstance(st, ast.Return) else None
+            if isinstance(v, ast.Call) and isinstance(v.func, ast.Name) and v.func.id in ("all", "any") and len(v.args) == 1 and not v.keywords and isinstance(v.args[0], (ast.GeneratorExp, ast.ListComp)) and not any(g.is_async for g in v.args[0].generators):
+                comp = v.args[0]
+                is_all = v.func.id == "all"
+                test = ast.UnaryOp(op=ast.Not(), operand=comp.elt) if is_all else comp.elt
+                inner: list = [ast.If(test=test, body=[ast.Return(value=ast.Constant(value=not is_all))], orelse=[])]
+                for gen in reversed(comp.generators):
+                    for cond in reversed(gen.ifs):
+                        inner = [ast.If(test=cond, body=inner, orelse=[])]
+                    inner = [ast.For(target=gen.target, iter=gen.iter, body=inner, orelse=[])]
+                inner.append(ast.Return(value=ast.Constant(value=is_all)))
+                for x in inner:
+                    ast.copy_location(x, st)
+                    ast.fix_missing_locations(x)
+                new.extend(inner)
+                changed = True
+            else:
+                new.append(st)
+        setattr(owner, field, new)
+    return changed
+
+
+def _redundant_guard_pass(fn) -> bool:
+    """`if xs: for v in xs: ...` with xs a local list built in this function: the guard adds nothing (an empty list loops
+    zero times)."""
+    built = set()
+    for n in walk_no_nested(fn):
+        if isinstance(n, ast.Assign) and len(n.targets) == 1 and isinstance(n.targets[0], ast.Name) and isinstance(n.value, (ast.List, ast.ListComp)):
+            built.add(n.targets[0].id)
+    changed = False
+    for owner, field, lst in list(_stmt_lists(fn)):
+        new = []
+        for st in lst:
+            if (isinstance(st, ast.If) and not st.orelse and len(st.body) == 1 and isinstance(st.body[0], ast.For) and not st.body[0].orelse
+                    and isinstance(st.body[0].iter, ast.Name) and st.body[0].iter.id in built
+                    and (norm(st.test) == st.body[0].iter.id or norm(st.test) in (f"len({st.body[0].iter.id}) > 0", f"len({st.body[0].iter.id}) != 0", f"len({st.body[0].iter.id}) >= 1"))):
+                new.append(st.body[0])
+                changed = True
+            else:
+                new.append(st)
+        setattr(owner, field, new)
+    return changed
+
+
 def normalise(repo, finfo, keep=(), helpers=True, aliases=True, comps=True, ifexp=True):
     """(normalised function node, [inlined helper FuncInfo])."""
     used = []
@@ -217,6 +267,8 @@ def normalise(repo, finfo, keep=(), helpers=True, aliases=True, comps=True, ifex
         fn, used = inline.expand(repo, finfo, keep)
     if fn is finfo.node:
         fn = inline._copy_node(fn)
+    _allany_pass(fn)
+    _redundant_guard_pass(fn)
     for _ in range(4):
         changed = False
         if comps:
